@@ -30,14 +30,16 @@ def DefSafe : B → Prop
   | .dictionary _ idx _ _ => idx.isNullable = true ∧ DefSafe idx
   | .struct _ _ _ fs _ _ _ => DefSafeL fs
   | .fixedSizeList _ _ _ _ _ _ el => DefSafe el
-  | .union _ fs _ _ _ => DefSafeHead fs
+  | .union _ fs _ _ _ => DefSafeFirst fs
   | _ => True
 def DefSafeL : BL → Prop
   | .nil => True
   | .cons b _ r => DefSafe b ∧ DefSafeL r
-def DefSafeHead : BL → Prop
+/-- the child `UnionBuilder::serialize_default` delegates to (the first that is not a placeholder; placeholders
+themselves are trivially `DefSafe`) -/
+def DefSafeFirst : BL → Prop
   | .nil => True
-  | .cons b _ _ => DefSafe b
+  | .cons b _ r => (b.isPlaceholder = true → DefSafeFirst r) ∧ (b.isPlaceholder = false → DefSafe b)
 end
 
 /-- is this a dictionary builder? -/
